@@ -167,7 +167,10 @@ func (hc *httpCache) FromBytes(data []byte) (err error) {
 	if err != nil {
 		return
 	}
-	respBuf := buffer.Next(respSize)
+	respBuf, err := readBytes(buffer, respSize)
+	if err != nil {
+		return
+	}
 	resp := &HTTPResponse{}
 	err = resp.FromBytes(respBuf)
 	if err != nil {
